@@ -110,7 +110,7 @@ def c08Violation (revs : List ReadEv) (wevs : List WriteEv) (proc : Proc) (maxSi
     sees the bytes on standard output, the number of logged line failures, whether the streamer's own failure
     was logged, and the exit status:  `jl exit=<n> nerr=<k> failed=<k> out=<hex>`. -/
 def runStreamJl (prop tiS toS readerS extS implS : String) : Result :=
-  let env : Env := ⟨genTables, parseExt extS⟩
+  let env : Env := ⟨drvTables, parseExt extS⟩
   match tmplOf env tiS, tmplOf env toS, parseReader readerS with
   | some ti, some to, some revs =>
     let fields := (toks implS).filterMap fun t => match t.splitOn "=" with | [k, v] => some (k, v) | _ => none
@@ -159,7 +159,7 @@ def runStreamJl (prop tiS toS readerS extS implS : String) : Result :=
 
 def runStream (prop tiS toS procS readerS writerS extS implS : String) : Result :=
   if procS == "jl" then runStreamJl prop tiS toS readerS extS implS else
-  let env : Env := ⟨genTables, parseExt extS⟩
+  let env : Env := ⟨drvTables, parseExt extS⟩
   match tmplOf env tiS, tmplOf env toS, parseProc procS, parseReader readerS, parseWriter writerS with
   | some ti, some to, some proc, some revs, some wevs =>
     if implS.startsWith "panic" then ⟨"P", s!"stream: {implS} violates {prop}: key=panic"⟩ else
